@@ -23,7 +23,15 @@ type ledgerStore struct {
 	sets   []wallet.BroadcastedSet
 	// bookkeeping for the oracle: anything the wallet asked for that a store cannot do
 	complaints []string
+	// fault injection: the n-th call of one kind within the next transaction fails once
+	failKind  string // "revert-index" | "revert-proofs" | ""
+	failAt    int
+	nRevert   int
+	nProofs   int
+	injected  bool
 }
+
+var errInjected = errors.New("injected: the store failed")
 
 func newLedgerStore() *ledgerStore {
 	return &ledgerStore{utxos: map[types.SiacoinOutputID]types.SiacoinElement{}}
@@ -32,6 +40,11 @@ func newLedgerStore() *ledgerStore {
 type storeTx struct{ s *ledgerStore }
 
 func (tx storeTx) UpdateWalletSiacoinElementProofs(pu wallet.ProofUpdater) error {
+	tx.s.nProofs++
+	if tx.s.failKind == "revert-proofs" && tx.s.nProofs == tx.s.failAt {
+		tx.s.failKind, tx.s.injected = "", true
+		return errInjected
+	}
 	for id, se := range tx.s.utxos {
 		pu.UpdateElementProof(&se.StateElement)
 		tx.s.utxos[id] = se.Move()
@@ -58,6 +71,11 @@ func (tx storeTx) WalletApplyIndex(index types.ChainIndex, created, spent []type
 }
 
 func (tx storeTx) WalletRevertIndex(index types.ChainIndex, removed, unspent []types.SiacoinElement, _ time.Time) error {
+	tx.s.nRevert++
+	if tx.s.failKind == "revert-index" && tx.s.nRevert == tx.s.failAt {
+		tx.s.failKind, tx.s.injected = "", true
+		return errInjected
+	}
 	kept := tx.s.events[:0]
 	for _, ev := range tx.s.events {
 		if ev.Index != index {
@@ -82,10 +100,21 @@ func (tx storeTx) WalletRevertIndex(index types.ChainIndex, removed, unspent []t
 func (s *ledgerStore) applyChunk(w *wallet.SingleAddressWallet, rus []chain.RevertUpdate, aus []chain.ApplyUpdate) (err error) {
 	s.mu.Lock()
 	defer s.mu.Unlock()
+	// the store's transaction is atomic: a failed UpdateChainState leaves no trace
+	tip0, events0 := s.tip, append([]wallet.Event(nil), s.events...)
+	utxos0 := make(map[types.SiacoinOutputID]types.SiacoinElement, len(s.utxos))
+	for id, e := range s.utxos {
+		utxos0[id] = e.Copy()
+	}
+	s.nRevert, s.nProofs, s.injected = 0, 0, false
 	defer func() {
 		if r := recover(); r != nil {
 			err = fmt.Errorf("UpdateChainState panicked: %v", r)
 		}
+		if err != nil {
+			s.tip, s.events, s.utxos = tip0, events0, utxos0
+		}
+		s.failKind = ""
 	}()
 	if err := w.UpdateChainState(storeTx{s}, rus, aus); err != nil {
 		return err
